@@ -317,7 +317,7 @@ class Check:
         self.transitions += mc["generated"]
         self.mc.append({k: mc[k] for k in ("module", "cfg", "generated", "distinct", "depth", "replays", "wall_s", "actions")})
 
-    def add_validation(self, v, cases_path=None, behaviours=None, boundary=("reset",), cid_key="cid"):
+    def add_validation(self, v, cases_path=None, behaviours=None, boundary=("reset",), cid_key="cid", classes=None):
         """Fold a validation result in: count traces, classify verdicts."""
         self.events += v["events"]
         if behaviours is not None:
@@ -329,6 +329,9 @@ class Check:
             self._violation("trace_rejected", v["lines"], at, cases_path, boundary, cid_key)
         seen_cls = {}
         for (line, cls, rest) in v["verdicts"]:
+            if classes is not None and cls not in classes:
+                self.extra["verdicts_of_other_properties"] = self.extra.get("verdicts_of_other_properties", 0) + 1
+                continue
             if (self.prop, cls) in known:
                 self.known_hits[cls] = self.known_hits.get(cls, 0) + 1
                 continue
